@@ -11,6 +11,21 @@ CLAIMS = {
   note="Trusted: CPython pathlib/os on tmpfs, the reference model (dsim/model). Not covered: case-insensitive file systems, Windows paths, I/O errors, threads.",
   technique="deterministic simulation: seeded enumeration-order / hash-seed / cwd / spelling schedules over a simulated workspace, reference-model oracle",
   ref="§3 C10"),
+ "C01": dict(
+  text="Seeded exploration in World V: operation sequences over a growing pool of BitLengthSets (all five composition operators applied to shared operands, interleaved in seeded order with all queries, divisors up to 2**16, repetition counts up to 2**63, clock jumps); oracle = explicit sets in the small regime and an independent modular sumset algebra (exponentiation by squaring in Z_m) in the huge regime; every recorded answer of every operand is re-checked after new sets were built from it (cache transparency, operand immutability), and the library's own numerical self-check must not fire. The exactness of the reductions is a pure number-theoretic fact decided here only by sampling against an independent algorithm.",
+  note="Queries whose cost in the implementation under test would be combinatorial are skipped by a cost estimate (never part of an oracle). Trusted: dsim/model/blsref.py.",
+  technique="deterministic simulation: seeded construction / query histories over shared memoised objects with a reference-model oracle",
+  ref="§3 C01"),
+ "C16": dict(
+  text="Seeded exploration in World W with the clock replaced by a deterministic step counter (sys.settrace line events per frame family) and a virtual time.monotonic that jumps: skeleton families are instantiated at capacities 2**j + r, j in {7..62}; the step vector must be identical within each length-prefix width class and bounded across classes, no non-leaf operator may be expanded numerically and no residue set may exceed its divisor while symbolic attributes are queried, results must not depend on clock jumps, a step budget and a watchdog catch growth.",
+  note="Probe on private operator names is optional (reported unavailable if gone). enumerate_elements_with_offsets and in-language _offset_ are excluded (documented as linear / numerical).",
+  technique="deterministic simulation: virtual step clock (settrace) + virtual monotonic clock with jumps over a seeded capacity schedule",
+  ref="§3 C16"),
+ "C18": dict(
+  text="Seeded exploration in World V: objects harvested from independent reads (composites, services, nested types, attributes, constants, expression values, bit length sets) are subjected to hostile client histories (mutating every list an accessor returns, then re-querying everything), equality / hash laws between independently built and minimally different objects, and pickling into a second interpreter started under another PYTHONHASHSEED and back.",
+  note="hash() is only required to be consistent with == inside one interpreter.",
+  technique="deterministic simulation: seeded client-mutation histories + cross-interpreter (other hash seed) pickle exchange",
+  ref="§3 C18"),
  "C02": dict(
   text="By-product of the reference peer (a pure function of the definition): generated namespaces incl. arrays at every prefix-width boundary capacity and unions at the tag-width boundary are read by the real front end and every type's alignment, extent, prefix / tag / header widths and bit_length_set are compared with an independent reference layout (exact sets when small, else min / max / residues by a modular sumset algebra); for small sealed types the set must equal the lengths actually produced when every shape is serialized.",
   note="Trusted: model/types.py + blsref.py as the Specification's layout rules. The simulation contributes only the observed-length cross-check.",
